@@ -179,9 +179,10 @@ Example C19_ex_bls :
   end.
 Proof. vm_compute. reflexivity. Qed.
 
-(* Add(0) / Contains(0): outside the property; what the model (and Go) do *)
+(* id 0 is outside the property (ids start at 1); what the model (and Go) do:
+   Add(0) panics, Contains(0) is false on every field *)
 Example C19_ex_zero :
   (match add 0 empty_bf with Panic => true | _ => false end,
-   contains 0 empty_bf, match contains 0 (from_bytes [1]) with Panic => true | _ => false end)
-  = (true, Ok false, true).
+   contains 0 empty_bf, contains 0 (from_bytes [1]), contains 0 (from_bytes [255; 255]))
+  = (true, Ok false, Ok false, Ok false).
 Proof. vm_compute. reflexivity. Qed.
